@@ -45,7 +45,7 @@ def main():
             "engine": "scv",
             "level_claimed": {
                 "category": "other",
-                "text": getattr(m, "LEVEL_TEXT", m.EXPLANATION),
+                "text": (m.LEVEL_TEXT if len(getattr(m, "LEVEL_TEXT", "")) > 40 else m.EXPLANATION),
                 "design_ref": "DESIGN.md §4/%s" % pid,
             },
             "level_note": getattr(m, "LEVEL_NOTE",
@@ -67,8 +67,11 @@ def main():
         },
         "engines": [
             {"name": "scv", "path": "scv/scv.cc", "serves_properties": serves,
-             "kind_free_text": "libTooling fact extractor (resolved AST, CFG, records, enums, tables) + Python rule "
-                               "engines (scv/engines.py, scv/rules/*.py) run by scv/run.py"},
+             "kind_free_text": "libTooling fact extractor (resolved AST, CFG, records, enums, tables, compiler diagnostics) + "
+                               "Python rule engines run by scv/run.py: engines.py (formats, switch tables, threading), absint.py "
+                               "(intervals), bufbound.py (buffer bounds), stuckstream.py (stream progress), strtemp.py (string "
+                               "templates), typeshape.py / singlepass.py (three-valued exploration), cmakeparse.py, rules/*.py; "
+                               "C19 parses the Python runtime with the stdlib ast module"},
         ],
         "checks": checks,
         "not_applicable": na,
